@@ -645,10 +645,12 @@ class SSHStreamSession(Generic[AnyStr]):
                         if buf:
                             recv_buf[:curbuf] = []
                             self._recv_buf_len -= buflen
+                            self._maybe_resume_reading()
                             raise asyncio.IncompleteReadError(
                                 cast(bytes, buf), None)
                         else:
                             exc = recv_buf.pop(0)
+                            self._maybe_resume_reading()
 
                             if isinstance(exc, SoftEOFReceived):
                                 # As for EOF, report that no separator
